@@ -6,13 +6,15 @@ import threading
 from .. import corr
 from ..pools import RecPool
 
-STREAMS = ["sig", "shipped", "chain"]
+STREAMS = ["sig", "shipped", "chain", "reuse"]
 RULE = ("sig: classes generated with exec from random signatures (positional, defaulted, *args, keyword-only, "
         "**kwargs), as Controller / PoolDecorator / Pool subclasses, with or without @service, arguments split over "
         "1..4 curry calls incl. unknown / duplicated names, 'target', too many positionals, Pool instances; shipped: "
         "the shipped controllers / decorators / composites with their real signatures (regenerated with inspect on "
         "every run); chain: chains of 1..8 templates, random binary groupings (thorough: all groupings for n <= 6), "
-        "three tail forms, arguments split over curry calls; non-trivial = a rejected argument list or a chain of "
+        "three tail forms, arguments split over curry calls; reuse: one pending prefix `t1 >> .. >> tk` (any grouping) "
+        "evaluated once and then extended several times with different suffixes and tails, the prefix bound directly "
+        "last (a pending chain is a value: later extensions must not show in earlier ones); non-trivial = a rejected argument list or a chain of "
         ">= 3 elements; distinct = distinct canonical case JSON")
 ASSUMPTIONS = ["inspect.Signature.bind_partial is modelled by the closed form Sig.bindPartial and compared with the library through Partial on every generated signature",
                "positional-only parameters are outside the model (no shipped constructor uses them)",
@@ -177,10 +179,14 @@ def impl(case):
         leaf = SHIPPED[case["cls"]][2]
         ra, tmpl = run_calls(cls, case["calls"])
         return {"reject_at": ra}
+    if case["mode"] == "reuse":
+        return impl_reuse(case)
     return impl_chain(case)
 
 
 def line(case, o):
+    if case["mode"] == "reuse":
+        return {"mode": "chains", "chains": [{"items": c["items"], "tree": c["tree"]} for c in derived(case)]}
     if case["mode"] == "sig":
         return {"mode": "sig", "sig": case["sig"], "leaf": case["base"] == "pool", "calls": case["calls"]}
     if case["mode"] == "shipped":
@@ -294,6 +300,103 @@ def gen_chain(rng, n=None):
     return {"mode": "chain", "items": items, "tree": gen_tree(rng, 0, n + 1)}
 
 
+def build_items(items):
+    objs = []
+    for it in items:
+        if "pool" in it:
+            p = RecPool(name="tailpool")
+            p._pid = it["pool"]
+            objs.append(p)
+        else:
+            cls = chain_class(it["ctor"], it["base"], it["service"])
+            t = None
+            for c in it["calls"]:
+                args = [a["id"] for a in c["args"]]
+                kw = {k: a["id"] for k, a in c["kwargs"]}
+                t = cls.s(*args, **kw) if t is None else t(*args, **kw)
+            objs.append(t)
+    return objs
+
+
+def canon_obj(o):
+    if hasattr(o, "_pid"):
+        return {"pool": o._pid}
+    return {"ctor": o._cid, "args": list(o._args), "kwargs": [[k, v] for k, v in o._kwargs.items()],
+            "target": canon_obj(o.target) if hasattr(o, "target") and o.target is not None else None}
+
+
+def call_of(o):
+    return {"ctor": o._cid, "args": list(o._args), "kwargs": [[k, v] for k, v in o._kwargs.items()]}
+
+
+def graft(tree, pre_tree, k):
+    """leaf 0 of a suffix tree stands for the shared prefix value, leaf i > 0 for suffix item i-1"""
+    if isinstance(tree, int):
+        return pre_tree if tree == 0 else tree + k - 1
+    return [graft(tree[0], pre_tree, k), graft(tree[1], pre_tree, k)]
+
+
+def derived(case):
+    """the chains a reuse program stands for: prefix ++ suffix_j, grouped as (prefix) >> (suffix_j)"""
+    pre = case["prefix"]
+    k = len(pre["items"])
+    out = []
+    for sfx in case["suffixes"]:
+        out.append({"mode": "chain", "items": pre["items"] + sfx["items"], "tree": graft(sfx["tree"], pre["tree"], k)})
+    return out
+
+
+def gen_reuse(rng):
+    k = rng.randint(2, 4)
+    base = gen_chain(rng, k)
+    pre_items = base["items"][:k]
+    prefix = {"items": pre_items, "tree": gen_tree(rng, 0, k)}
+    suffixes = []
+    cid = k
+    for j in range(rng.randint(2, 4)):
+        extra = gen_chain(rng, rng.randint(0, 2)) if j < 3 else gen_chain(rng, 0)
+        items = []
+        for it in extra["items"]:
+            if "pool" in it:
+                items.append({"pool": 900 + j})
+            else:
+                # only the head of the whole chain may be a Controller (every later element is a target, i.e. a Pool)
+                items.append(dict(it, ctor=cid, base="pool" if it["leaf"] else "decorator"))
+                cid += 1
+        # the prefix value is the left-most leaf of the expression (so it is a `>>` operand of its own)
+        suffixes.append({"items": items, "tree": gen_tree(rng, 0, len(items) + 1)})
+    return {"mode": "reuse", "prefix": prefix, "suffixes": suffixes}
+
+
+def impl_reuse(case):
+    from cobald.interfaces import Partial
+    from cobald.interfaces._partial import PartialBind
+
+    def ev(objs, tree):
+        if isinstance(tree, int):
+            return objs[tree]
+        return ev(objs, tree[0]) >> ev(objs, tree[1])
+
+    try:
+        pre = ev(build_items(case["prefix"]["items"]), case["prefix"]["tree"])
+    except TypeError:
+        return {"results": [{"error": "TypeError"}] * len(case["suffixes"])}
+    results = []
+    for sfx in case["suffixes"]:
+        del LOG[:]
+        try:
+            res = ev([pre] + build_items(sfx["items"]), sfx["tree"])
+        except TypeError:
+            results.append({"error": "TypeError"})
+            continue
+        if isinstance(res, (Partial, PartialBind)):
+            results.append({"unbound": len(LOG)})
+            continue
+        ids = [id(o) for _, o in LOG]
+        results.append({"obj": canon_obj(res), "log": [call_of(o) for _, o in LOG], "_once": len(set(ids)) == len(ids)})
+    return {"results": results}
+
+
 def impl_chain(case):
     del LOG[:]
     objs = []
@@ -382,6 +485,12 @@ def oracle(case, o):
                 return [("rejects-bindable:%s" % case["cls"], "%s: bindable arguments rejected at step %r (expected %r)" % (case["cls"], o["reject_at"], exp))]
             return [("accepts-unbindable:%s" % case["cls"], "%s: arguments that can never bind accepted (TypeError at step %r, expected at %r)" % (case["cls"], o["reject_at"], exp))]
         return []
+    if case["mode"] == "reuse":
+        out = []
+        for j, (c, r) in enumerate(zip(derived(case), o["results"])):
+            for key, what in oracle(c, r):
+                out.append((key + "-on-reuse", "use %d of a shared pending chain: %s" % (j, what)))
+        return out[:1]
     exp = hand_nested(case)
     got = expect_chain(o)
     out = []
@@ -414,6 +523,8 @@ def expected_shipped(case, sig, leaf):
 
 
 def nontrivial(case, o):
+    if case["mode"] == "reuse":
+        return True
     if case["mode"] == "chain":
         return len(case["items"]) >= 3
     return o.get("reject_at") is not None
@@ -454,6 +565,10 @@ def run(ctx):
                 cases.append({**base, "tree": t})
     corr.run_stream(ctx, "chain", cases, impl, line, oracle, nontrivial, None,
                     lambda c, o, m: (expect_chain(o), m))
+    rng = ctx.rng("reuse")
+    cases = [gen_reuse(rng) for _ in range(ctx.n(600, 6000))]
+    corr.run_stream(ctx, "reuse", cases, impl, line, oracle, nontrivial, None,
+                    lambda c, o, m: ([expect_chain(r) for r in o["results"]], m.get("results", m)))
     ctx.notes["shipped_signatures"] = {k: v[1] for k, v in SHIPPED.items()}
 
 
